@@ -45,7 +45,7 @@ def setup() -> None:
 
 
 def budget(tier: str) -> int:
-    return 2400 if tier == "quick" else 40000
+    return 2400 if tier == "quick" else 100000
 
 
 # ---------------------------------------------------------------------------
